@@ -384,6 +384,13 @@ def limits_family():
         odd += [f"[1, 2].map({name}, {name})", f"[1, 2].filter({name}, {name} > 1)", f"[1].exists({name}, {name} == 1)", f"{name}", f"{name} == 7", f"{name}.x"]
     odd += ["-0x0u", "-0x0", "-0x1u", "-0u", "- 0u", "-(0u)", "1u + -0u", 'google.protobuf.Struct{a: 1}.b', 'has(google.protobuf.Struct{a: 1}.b)', 'google.protobuf.Struct{a: 1}.b == 1 || true',
             'google.protobuf.Struct{a: 1}.a']
+    # message literals and conversions of messages (every failure mode of the constructor), string %, long chains of
+    # failing && / || terms (the CEL minimum is 32), reduce() variables
+    odd += ["google.protobuf.Int64Value{valu: 1}", "google.protobuf.Int32Value{value: 1e999}", "getDate{}", "size{}", "vi{a: 1}", "int(google.protobuf.Struct{a: 1})",
+            "google.protobuf.Struct{a: 1}.bool()", "double(google.protobuf.Struct{a: 1})", "uint(google.protobuf.Struct{})", "google.protobuf.Struct{self: 1}", "google.protobuf.Struct{cls: 1, args: 2}",
+            '"%(k)s" % {"j": 1}', '"%s" % "a"', '"%d" % 1', '1 % "a"', "[1].reduce(r, 1, 0, r)", "[1, 2].reduce(r, i + j, 0, r)", "[1].reduce(1, i, 0, r)",
+            " && ".join(f"vm.k{i}" for i in range(32)), " || ".join(f"vm.k{i}" for i in range(32)), " && ".join(["(1 / 0 > 0)"] * 32), "[" + ", ".join(["1"] * 32) + "].all(v, v.x)",
+            "[" + ", ".join(["1"] * 32) + "].exists(v, v.x)", "[" + ", ".join(["1"] * 32) + "].all(v, v)"]
     odd += ['.size("abc")', ".string(1)", '.int("1")', ".size([1, 2]) + 1", ".vi", ".vi + 1", ".vm.a", ".nope", ".f(1)", '[1].map(v, .size("ab"))']
     for o in odd:
         out.append(("raw", None, o))
